@@ -342,9 +342,49 @@ func genBase(r *common.Rng) ConfigC {
 				rt.Res = common.Pick(r, dnsNames)
 			}
 		}
+		if r.Chance(1, 4) {
+			rt.FP, rt.FR = genPorts(r)
+		}
+		if r.Chance(1, 4) {
+			rt.TP2, rt.TR = genPorts(r)
+		}
 		c.Router.Routes = append(c.Router.Routes, rt)
 	}
+	if r.Chance(1, 5) {
+		a := &ApiC{En: r.Chance(5, 6), Pprof: r.Bool(), Static: r.Bool(), Secret: common.Pick(r, []string{"", "", "plain"})}
+		for i := 0; i < r.Range(1, 2); i++ {
+			a.L = append(a.L, ApiLC{TLS: r.Chance(1, 4), Cert: false, CAs: false})
+		}
+		if !a.L[0].TLS && r.Chance(1, 4) {
+			a.L[0].Cert = true // resolved only with TLS
+		}
+		c.API = a
+	}
 	return c
+}
+
+// genPorts: a valid port criterion: one port, a few ranges, or more than 16 ranges (bit set representation)
+func genPorts(r *common.Rng) (ports []int, items []string) {
+	switch r.Intn(6) {
+	case 0:
+		return []int{common.Pick(r, []int{1, 53, 443, 65535})}, nil
+	case 1:
+		return nil, []string{common.Pick(r, []string{"80", "65535", "1"})}
+	case 2:
+		return []int{80, 443}, []string{"1000-2000", "3000-3001"}
+	case 3: // 16 ranges: still a range set
+		for i := 0; i < 16; i++ {
+			items = append(items, fmt.Sprintf("%d-%d", 100*i+1, 100*i+10))
+		}
+		return nil, items
+	case 4: // 17 ranges: bit set
+		for i := 0; i < 16; i++ {
+			items = append(items, fmt.Sprintf("%d-%d", 100*i+1, 100*i+10))
+		}
+		return []int{60000}, items
+	default: // adjacent and overlapping pieces merge: 1-10, 11, 5-20 is ONE range
+		return []int{11}, []string{"1-10", "5-20", "21"}
+	}
 }
 
 // ---------- faults ----------
@@ -925,6 +965,56 @@ func oddVariant(r *common.Rng, n string) string {
 
 func init() {
 	faults = append(faults,
+		fault{"route-ports", func(r *common.Rng, c *ConfigC) bool {
+			if len(c.Router.Routes) == 0 {
+				return false
+			}
+			rt := &c.Router.Routes[r.Intn(len(c.Router.Routes))]
+			var p []int
+			var it []string
+			switch r.Intn(4) {
+			case 0:
+				p = []int{80, 0}
+			case 1:
+				it = []string{"80", common.Pick(r, []string{"x", "0", "70000", "5-3", "7-7", "1-2-3", "", "0-5", "5-70000"})}
+			case 2:
+				it = []string{"1-65535"}
+			default:
+				p, it = []int{1, 65535}, []string{"2-40000", "30000-65534"}
+			}
+			if r.Bool() {
+				rt.FP, rt.FR = p, it
+			} else {
+				rt.TP2, rt.TR = p, it
+			}
+			return true
+		}},
+		fault{"api-bad", func(r *common.Rng, c *ConfigC) bool {
+			if c.API == nil {
+				c.API = &ApiC{En: true, L: []ApiLC{{}}}
+			}
+			a := c.API
+			switch r.Intn(6) {
+			case 0:
+				a.En, a.L = true, nil
+			case 1:
+				a.En = true
+				a.L = append(a.L, ApiLC{TLS: true, Cert: true})
+			case 2:
+				a.En = true
+				a.L = append(a.L, ApiLC{TLS: true, CAs: true})
+			case 3:
+				a.En, a.Secret = true, common.Pick(r, []string{"wild", "bad"})
+			case 4:
+				a.En, a.L, a.Secret = false, nil, "bad" // disabled: nothing is looked at
+			default:
+				a.En, a.Pprof, a.Static = true, true, true
+				if len(a.L) == 0 {
+					a.L = []ApiLC{{}}
+				}
+			}
+			return true
+		}},
 		// one entity gets the empty name; references follow it (still a valid configuration) or are left behind
 		fault{"empty-name", func(r *common.Rng, c *ConfigC) bool {
 			kind := common.Pick(r, nameKinds)
